@@ -29,4 +29,6 @@ MUTANTS=[
  # reverts of F29, F30
  ('revert-contiguous-files', 'case tar.TypeReg, tar.TypeCont:', 'case tar.TypeReg:'),
  ('revert-self-link-skipped', '\t\t\tif source == target {\n\t\t\t\tcontinue', '\t\t\tif false {\n\t\t\t\tcontinue'),
+ # revert of F31
+ ('revert-temp-removal-checked', '\tif err := os.RemoveAll(tempDir); err != nil {\n\t\treturn fmt.Errorf("failed to clear temporary directory: %w", err)\n\t}\n', '\tos.RemoveAll(tempDir)\n'),
 ]
